@@ -21,7 +21,7 @@ def make_case(rng, exhaustive_codes=None):
     sfac = rng.sample(gen.ELEMENTS, nel)
     if rng.random() < 0.5 and 'H' not in sfac:
         sfac[rng.randrange(nel)] = 'H'
-    z = rng.choice([1, 2, 4, 8, 3, 6, 16])
+    z = rng.choice([1, 2, 4, 8, 3, 6, 16, 1.5, 2.5, 4, 2])
     unit = [rng.choice([1, 2, 4, 8, 12, 16, 24, 36, 48, 96, 0.5, 2.5, 1200]) for _ in sfac]
     atoms = []
     used = set()
@@ -38,7 +38,11 @@ def make_case(rng, exhaustive_codes=None):
     if rng.random() < 0.5:
         for k in range(rng.randint(1, 3)):
             atoms.append(dict(name=f'Q{k + 1}', sfac=1, code=11.0, via='atom', q=True))
-    return dict(fvars=fvars, sfac=sfac, unit=unit, z=z, atoms=atoms)
+    case = dict(fvars=fvars, sfac=sfac, unit=unit, z=z, atoms=atoms)
+    if nfv >= 2 and rng.random() < 0.4:
+        # history on one object: observe, change a free variable through the FVAR object, observe again
+        case['fv_edit'] = [rng.randrange(1, nfv), round(rng.uniform(0.05, 0.95), 5)]
+    return case
 
 
 def rand_code(rng, nfv):
@@ -92,9 +96,25 @@ def render(case):
 
 
 def observe_impl(case):
+    """-> list of (effective case, observation): the file as read, and - for a case with 'fv_edit' - the same object
+    again after one free variable was changed (occupancies and sums must follow the CURRENT FVAR list)"""
     from shelxfile import Shelxfile
     shx = Shelxfile()
     shx.read_string(render(case))
+    out = [(case, observe_obj(shx, case))]
+    if case.get('fv_edit') and 'error' not in out[0][1]:
+        i, v = case['fv_edit']
+        try:
+            shx.fvars.fvars[i].fvar_value = v
+            c2 = dict(case, fvars=case['fvars'][:i] + [v] + case['fvars'][i + 1:], history='fvar-edited')
+            c2.pop('fv_edit')
+            out.append((c2, observe_obj(shx, c2)))
+        except Exception:
+            pass
+    return out
+
+
+def observe_obj(shx, case):
     names = [a.name for a in shx.atoms]
     want = [a['name'].upper()[:4] for a in case['atoms']]
     if names != want:
@@ -135,8 +155,14 @@ def evaluate(ctx, cases, stream=None):
     reqs = []
     idx = []
     impls = []
+    expanded = []
+    for case in cases:
+        for eff, obs in observe_impl(case):
+            expanded.append((case, eff, obs))
+    replay_of = [c for c, _, _ in expanded]
+    cases = [e for _, e, _ in expanded]
     for ci, case in enumerate(cases):
-        obs = observe_impl(case)
+        obs = expanded[ci][2]
         impls.append(obs)
         for ai, a in enumerate(case['atoms']):
             reqs.append(dict(p='C09', op='occ', code=a['code'], fvars=case['fvars']))
@@ -165,12 +191,12 @@ def evaluate(ctx, cases, stream=None):
                 continue
             m, spec = r['spec_m'], r['spec']
             got_m, got = obs['occ'][what]
-            tags = [mclass(m), 'p<0' if r['spec_p'] < 0 else 'p>=0', 'via=' + a['via'] + ('(negative PART)' if a['via'] == 'part' and a.get('partn', 1) < 0 else ''), 'rule-open' if spec is None else 'rule-fixed']
-            ctx.count(['occ', a['code'], case['fvars'][:abs(m)] if abs(m) > 1 else 0, a['via']], nontrivial=spec is not None and abs(m) > 1,
+            tags = [mclass(m), 'p<0' if r['spec_p'] < 0 else 'p>=0', 'history=' + case.get('history', 'read'), 'via=' + a['via'] + ('(negative PART)' if a['via'] == 'part' and a.get('partn', 1) < 0 else ''), 'rule-open' if spec is None else 'rule-fixed']
+            ctx.count(['occ', a['code'], case['fvars'][:abs(m)] if abs(m) > 1 else 0, a['via'], case.get('history')], nontrivial=spec is not None and abs(m) > 1,
                       sample=dict(stream='occ', code=a['code'], fvars=case['fvars'][:4], via=a['via'], impl=[got_m, got],
                                   spec=[m, None if spec is None else float(spec)]) if abs(m) > 1 else None, tags=tags)
-            sig = f'C09|occ|{mclass(m)}|{"p<0" if r["spec_p"] < 0 else "p>=0"}|via={a["via"]}'
-            payload = dict(case=dict(case, atoms=[a]), stream='occ', code=a['code'], expected=dict(m=m, occ=None if spec is None else str(spec)),
+            sig = f'C09|occ|{mclass(m)}|{"p<0" if r["spec_p"] < 0 else "p>=0"}|via={a["via"]}' + ('|after-fvar-edit' if case.get('history') else '')
+            payload = dict(case=(dict(replay_of[ci], atoms=[a]) if 'fv_edit' not in replay_of[ci] else replay_of[ci]), stream='occ', code=a['code'], expected=dict(m=m, occ=None if spec is None else str(spec)),
                            actual=dict(fvar=got_m, occupancy=got), model=dict(m=r['m'], occ=str(r['occ'])))
             if got_m == 'raise':
                 ctx.fail(sig + '|raise', f'occupancy of code {a["code"]} raised {got}', payload)
@@ -189,7 +215,7 @@ def evaluate(ctx, cases, stream=None):
             if open_rule:
                 continue
             spec = [(k, float(v)) for k, v in r['spec']]
-            payload = dict(case=case, stream='sum', expected=spec, actual=obs['sumdict'], model=[(k, float(v)) for k, v in r['model']])
+            payload = dict(case=replay_of[ci], stream='sum', expected=spec, actual=obs['sumdict'], model=[(k, float(v)) for k, v in r['model']])
             got = obs['sumdict']
             if isinstance(got, str) or [k.upper() for k, _ in got] != [k for k, _ in spec] or \
                     any(not core.close(v, w, 1e-6, 1e-9) for (_, v), (_, w) in zip(got, spec)):
@@ -200,7 +226,7 @@ def evaluate(ctx, cases, stream=None):
             ctx.count(['unit', case['sfac'], case['unit'], case['z']], nontrivial=True, tags=['unit'],
                       sample=dict(stream='unit', sfac=case['sfac'], unit=case['unit'], z=case['z'], impl=got))
             parsed = parse_formula(got) if isinstance(got, str) else None
-            payload = dict(case=case, stream='unit', expected=spec, actual=got)
+            payload = dict(case=replay_of[ci], stream='unit', expected=spec, actual=got)
             if parsed is None or [k.upper() for k, _ in parsed] != [k for k, _ in spec] or \
                     any(not core.close(v, w, 1e-12, 2e-5) for (_, v), (_, w) in zip(parsed, spec)):
                 ctx.fail('C09|unit', f'UNIT-based formula {got!r} is not UNIT/Z in SFAC order {spec}', payload)
